@@ -143,6 +143,9 @@ def gen_call(rng, kind):
         pass
     elif mode < 0.5:
         ranks = mutate_selector(rng, kind, n); label = "bad-ranks"
+        if rng.random() < 0.35:
+            # two faults at once: the order of the checks decides the exception class
+            scores = rng.choice([("L", [number_term(rng) for _ in range(n)]), mutate_selector(rng, kind, n)]); label = "bad-ranks+scores"
     elif mode < 0.65:
         scores = mutate_selector(rng, kind, n); label = "bad-scores"
     elif mode < 0.73:
@@ -652,6 +655,11 @@ def c18(res):
             if seq != want or (r < o) != (m - 3.0 * s < (m + 1.0) - 3.0 * (s + 0.25)) or (o <= r) != ((m + 1.0) - 3.0 * (s + 0.25) <= m - 3.0 * s):
                 res.fail("property", "C18: %s: repeated ordinal(z) calls / comparisons on the same object are inconsistent with mu - z*sigma: %r vs %r" % (kind, seq, want),
                          dict(type="c18ord", kind=kind)); break
+        # a deepcopy snapshot (same id) of a rating whose values have since moved on is simply unequal to it
+        live = R(25.0, 8.0, "p"); snap = copy.deepcopy(live); live.mu += 2.5
+        if (snap == live) is not False or (snap != live) is not True or (copy.deepcopy(live) == live) is not True:
+            res.fail("property", "C18: %s: == between a snapshot and the updated rating of the same player does not follow (mu, sigma)" % kind,
+                     dict(type="c18snap", kind=kind))
         rs = [R(m, s) for (m, s) in pts]
         for r in rs[::2]:
             r.ordinal(1.0)          # a display query with a non-default z before sorting
